@@ -326,14 +326,21 @@ def container_method(I, ref, name):
             return SBuiltin("list." + name, t[name])
         return None
     if isinstance(h, HDict):
+        # dict views: iteration as a list snapshot, but `==` follows the view semantics (set-like
+        # for items/keys views, identity for values views) -- see Interp.equal
+        def _view(kind, xs):
+            v = HList(xs)
+            v.view = kind
+            return SRef(P.alloc(v))
+
         def items(I, a, k):
-            return SRef(P.alloc(HList([STuple([kk, vv]) for kk, vv in h.entries])))
+            return _view("items", [STuple([kk, vv]) for kk, vv in h.entries])
 
         def keys(I, a, k):
-            return SRef(P.alloc(HList([kk for kk, vv in h.entries])))
+            return _view("keys", [kk for kk, vv in h.entries])
 
         def values(I, a, k):
-            return SRef(P.alloc(HList([vv for kk, vv in h.entries])))
+            return _view("values", [vv for kk, vv in h.entries])
 
         def get(I, a, k):
             d = a[1] if len(a) > 1 else k.get("default", SNone)
